@@ -9,7 +9,7 @@ DESIGN_REF = '3.13'
 CHUNK = 40
 CHUNK_WALL = 600
 RULE = ('for each usage script {blocking acquire; timed acquire_ctx; with on a default-timeout lock; reentrant acquire nested 3 deep; two '
-        'rounds of with; a process that uses a FileLock object it inherited (already used) from its still-living parent across fork(); a daemon-style process with stdin closed that execs a helper program while holding; a timed acquire that first has to wait for another holder and whose process forks a long-lived child while it sleeps between two polls} a real child process is first stepped alone to completion to count its controller steps n (every line event '
+        'rounds of with; a process that uses a FileLock object it inherited (already used) from its still-living parent across fork(); a daemon-style process with stdin closed that execs a helper program while holding} a real child process is first stepped alone to completion to count its controller steps n (every line event '
         'inside aiuti/filelock.py plus critical-section markers); then for EVERY k in 0..n a fresh child is stepped to event k and '
         'SIGKILLed, with 0, 1 and 2 other stepped contender processes parked at seeded positions (4 configurations per k in quick, 12 in thorough: contenders x killed process reaped '
         'at once / left a zombie x probe through the blocking / the polling acquire path). After the kill: if the kernel reports the lock free, a fresh process stepped alone must enter its '
@@ -27,7 +27,7 @@ REAL = ['aiuti.filelock (unmodified source) in real child processes', 'kernel fl
 STUB = ['time.time / time.sleep in children (per-child virtual clock)', 'blocking flock (LOCK_NB + wait for the controller)',
         'process scheduling (controller PRNG)']
 ASSUMPTIONS = ['Linux; CPython 3.12.1; local file system (tmpfs)', 'one thread per child process']
-SCRIPTS = list(pw.CRASH_SCRIPTS)
+SCRIPTS = [n for n, sc in pw.CRASH_SCRIPTS.items() if not sc.get('outside_quantifier')]
 
 
 def batches(tier):
